@@ -265,7 +265,7 @@ class ChkGeometry(FragmentTask):
 
 
 def parent_tasks(tier):
-    return [ConvertTask("state_D_00000"), ConvertTask("state_D_00001"), ConvertScatter(), ConvertLevel(), ChkGeometry()]
+    return [ConvertTask("state_D_00000"), ConvertTask("state_D_00001"), ConvertScatter(), ConvertLevel(), ChkGeometry(), __import__("props.scatter_u", fromlist=["convert_scatter"]).convert_scatter()]
 
 
 def parent_canaries():
